@@ -223,6 +223,16 @@ class Evidence:
 
 # ---------------------------------------------------------------- driver-based stages
 
+def expand_sets(cfg):
+    """--set name=value arguments of a check; {build} {repo} {verif} {scratch} are expanded."""
+    scratch = os.path.join(WORK, "scratch")
+    os.makedirs(scratch, exist_ok=True)
+    out = []
+    for kv in cfg.get("set", []):
+        out += ["--set", kv.format(build=B.build_dir(cfg["variant"]), repo=B.repo_dir(), verif=VERIF, scratch=scratch)]
+    return out
+
+
 EXTRA_ENV = {}      # per-property overrides (cfg["env"]), set by run_check/replay
 
 
@@ -287,9 +297,7 @@ def driver_check(prop, tier, scale, cfg, ev):
     variant = cfg["variant"]
     exe = build_driver_binary(prop, variant, cfg["sources"], cfg.get("cflags", ()), cfg.get("ldflags", ()))
     kargs = known_args(prop)
-    sets = []
-    for kv in cfg.get("set", []):
-        sets += ["--set", kv]
+    sets = expand_sets(cfg)
     for k in cfg.get("excludes", []):
         kargs = kargs + ["--exclude", k]
     common = kargs + sets + ["--tier", tier]
@@ -429,9 +437,7 @@ def replay(prop, casefile):
     if "custom_replay" in cfg:
         return cfg["custom_replay"](prop, casefile, cfg)
     exe = build_driver_binary(prop, cfg["variant"], cfg["sources"], cfg.get("cflags", ()), cfg.get("ldflags", ()))
-    sets = []
-    for kv in cfg.get("set", []):
-        sets += ["--set", kv]
+    sets = expand_sets(cfg)
     for k in cfg.get("excludes", []):
         sets += ["--exclude", k]
     r = subprocess.run([exe, "--mode", "replay", "--file", casefile, "--times", "3"] + known_args(prop) + sets,
